@@ -358,7 +358,119 @@ def task_wide(t):
     return rep
 
 
-TASKS = dict(cr=task_const_rename, compose=task_compose, autoref=task_autoref, wide=task_wide)
+def task_reorder(t):
+    """Substitution while DYNAMIC REORDERING fires inside the call: the request is forced at the
+    k-th node creation and the reordering it triggers ends in a chosen order (every permutation
+    of the three variables).  Constants, renamings and functions; dd.bdd and dd.autoref."""
+    _, k, si, ns, focus = t
+    rep = run.Report()
+    rec = sweep.Rec(rep)
+    names = names_for(3, env.SEED)
+    U = Universe(names)
+    m = S.new_bdd({v: i for i, v in enumerate(names)})
+    refs, b = sweep.build_all(m, U)
+    am = S.autoref_around(m)
+    m.configure(reordering=True)
+    fs = sorted(refs)
+    perms = list(itertools.permutations(names))
+    x, y, z = names
+    seam = sweep.pick_order_seam()
+    if not seam.available():
+        rep.note('dd.bdd._request_reordering is absent: reordering cannot be forced')
+        return rep
+    consts = [{x: True}, {y: False}, {z: True, x: False}, {y: True, z: True}]
+    renames = [{x: y}, {z: x}, {x: y, y: x}]
+    G = [U.var(y), U.var(x) & U.var(z), U.full ^ U.var(z), U.full]
+    mine = sweep.shard(fs, ns)[si]
+    with seam:
+        for fu in mine:
+            if focus is not None and fu != focus:
+                continue
+            u = refs[fu]
+            for pi, perm in enumerate(perms):
+                seam.target = {v: i for i, v in enumerate(perm)}
+                sel = (fu + pi) % 4
+                cases = [('const', consts[sel]), ('rename', renames[sel % 3]),
+                         ('compose', {names[sel % 3]: G[(fu + pi) % 3]}),
+                         ('compose2', {x: G[sel], z: G[(sel + 1) % 4]}),
+                         ('autoref-mixed', {y: G[3], x: G[(sel + 1) % 3]})]
+                for kind, d in cases:
+                    case = dict(task=t[:-1] + (fu,), u=U.fmt(fu), kind=kind, position=k,
+                                d={a_: (U.fmt(v_) if isinstance(v_, int) and not isinstance(
+                                    v_, bool) else v_) for a_, v_ in d.items()},
+                                order_after=list(perm))
+                    try:
+                        if getattr(m, '_last_len', None) is None:
+                            m.configure(reordering=True)
+                        if kind == 'const':
+                            want = U.restrict(fu, d)
+                            arg = dict(d)
+                        elif kind == 'rename':
+                            want = U.rename(fu, d)
+                            arg = dict(d)
+                            if U.support(fu) & (set(d.values()) - set(d)):
+                                continue        # target inside the support: not a renaming
+                        else:
+                            want = U.compose(fu, d)
+                            arg = {a_: b(g_) for a_, g_ in d.items()}
+                            for r_ in arg.values():
+                                m.incref(r_)
+                        if kind == 'autoref-mixed':
+                            harg = {a_: am._add_int(r_) for a_, r_ in arg.items()}
+                            hu = am._add_int(u)
+                        seam.arm((k,))
+                        try:
+                            if kind == 'autoref-mixed':
+                                hr = am.let(harg, hu)
+                                r = hr.node
+                                m.incref(r)
+                                del hr
+                            else:
+                                r = m.let(arg, u)
+                        finally:
+                            seam.disarm()
+                        if kind == 'autoref-mixed':
+                            harg.clear()
+                            del hu
+                        got = O.Den(m, U)(r)
+                        if kind == 'autoref-mixed':
+                            m.decref(r)
+                        if kind.startswith('compose') or kind == 'autoref-mixed':
+                            for r_ in arg.values():
+                                m.decref(r_)
+                        b.reset()
+                        rep.add('evaluations')
+                        if seam.reorders:
+                            rep.add('reordered_inside')
+                            rep.add('nontrivial')
+                        if got != want:
+                            rec('reorder:' + kind, 'let gives another function when dynamic '
+                                'reordering fires inside the call', case)
+                    except Violation as e:
+                        rec('reorder-broken:' + e.what, e.what, case)
+                    except Exception as e:  # noqa
+                        rec('reorder-exception:%s:%s' % (kind, type(e).__name__),
+                            'raised %r' % (e,), case)
+    try:
+        den = O.Den(m, U)
+        for f, r in refs.items():
+            if den(r) != f:
+                raise Violation('a held operand changed denotation')
+        env.settle()
+        ext = {}
+        for r in refs.values():
+            ext[abs(r)] = ext.get(abs(r), 0) + 1
+        O.check(m, ext, U)
+    except Violation as e:
+        rec('reorder-after:' + e.what, e.what, dict(task=t), **e.detail)
+    if si == 0 and focus is None:
+        rep.sample(dict(kind='let with reordering forced inside', position=k,
+                        final_orders='every permutation of 3 variables'))
+    return rep
+
+
+TASKS = dict(cr=task_const_rename, compose=task_compose, autoref=task_autoref, wide=task_wide,
+             reorder=task_reorder)
 
 
 def dispatch(t):
@@ -368,6 +480,7 @@ def dispatch(t):
 def plan(tier):
     ts = [('wide', 10, si, 16, None) for si in range(16)]
     ts += [('wide', sweep.XWIDE, si, 16, None) for si in range(16)]
+    ts += [('reorder', k, si, 8, None) for k in (1, 2) for si in range(8)]
     if tier == 'quick':
         for oi in range(6):
             for ctx in ('K0', 'K1'):
